@@ -681,7 +681,7 @@ theorem evConnected_TR {w : World} (hI : WInv w) (h : TR w) {k : Nat} {p : World
     · cases hp
   · cases hp
 
-theorem evConnFail_TR {w w' : World} {k : Nat} (h : TR w) (he : evConnFail w k = some w') : TR w' := by
+theorem evConnFail_TR {w w' : World} {k : Nat} (h : TR w) (he : evConnFail w k e = some w') : TR w' := by
   unfold evConnFail at he
   split at he
   · rename_i hph
@@ -1070,9 +1070,9 @@ theorem TR_step {w : World} (hI : WInv w) (hP : PortInv w) (hK : K w) (h : TR w)
     cases hE : evConnected w k with
     | none => exact h
     | some p => exact evConnected_TR hI h hE
-  | connFail k =>
+  | connFail k e =>
     simp only [step]
-    cases hE : evConnFail w k with
+    cases hE : evConnFail w k e with
     | none => exact h
     | some w' => exact evConnFail_TR h hE
   | data i d => exact evData_TR hI h i d
@@ -1227,9 +1227,9 @@ theorem W8_step {w : World} (hI : WInv w) (h : W8 w) (e : Event) : W8 (step w e)
     cases hE : evConnected w k with
     | none => exact h
     | some p => exact W8_evConnected hI h hE
-  | connFail k =>
+  | connFail k e =>
     simp only [step]
-    cases hE : evConnFail w k with
+    cases hE : evConnFail w k e with
     | none => exact h
     | some w' => exact W8_quiet h (evConnFail_quiet hE)
   | data i d => exact W8_evData hI h i d
